@@ -25,6 +25,14 @@ Contract.
         (_deep_deannotate is not a copy: it hands back the original elements.)
   the copy relation commutes with the generative calls, and a clone is as immutable as its source:
         c = cloned_traverse(s);  r = c.m(args)   =>   sql(r) == sql(s.m(args))  and  sql(c) == sql(s) still.
+  derivations have the same frame condition as the generative calls:  for every derivation  d  of the catalogue DERIVE
+        (a public method of the statement that returns a new construct embedding it, or a standalone constructor taking
+        it as an argument:  s.subquery() / alias() / cte() / lateral() / scalar_subquery() / exists() / label() /
+        self_group(),  s.union(..) .. s.intersect_all(..),  union(s, o) .. except_all(o, s),  col.in_(s),
+        insert(t).from_select(.., s);  for DML  s.cte();  for text()  self_group())
+            o = d(s);  use(o)     modifies nothing reachable from s or from any ancestor of s
+        where use(o) reads o.c (for a FROM element) and compiles o / select(o):  snapshot(old(s)) == snapshot(s).
+        Nothing is demanded of o itself.
 
 Scope: all call chains of length <= L (quick 2, thorough 3) over a catalogue of canonical calls per method, from a few
 base statements per class; every ancestor re-snapshotted after every call.  Every statement reached by <= 2 calls is
@@ -34,6 +42,17 @@ reached by two calls.  Name dimension: besides the fixed schema a / b / c (plain
 chains over table `n` whose column names need sanitizing / escaping when they become bind-parameter names or labels
 (NAMES: leading / trailing / double underscore, parentheses, brackets, space, dot, percent, colon, leading digit),
 ad-hoc column()s and explicit bindparam()s (unique and not) with such names, and dict-form values() keyed by them.
+Derivation dimension: every base statement and every statement reached by <= 2 calls is put through the derivations
+applicable to its type (all of DERIVE for the bases and after one call; one third of the catalogue in rotation after two
+calls, so that every derivation meets every first and every second call), each derived construct being used (columns
+read, compiled on the default dialect and one more in rotation); then it and all its ancestors are re-snapshotted (bases
+and after one call: the full snapshot; after two calls: SQL + parameters on the default and one more dialect in
+rotation, and the key — a differing entry triggers the full comparison); on a difference the chain is rebuilt and the derivations are applied one at a time to name the one at
+fault.  Compound dimension (class `CompoundSelect[members]`): the compound bases range, base-choice, over
+operator {union, union_all, intersect, intersect_all, except, except_all} x shape of the first member {plain select,
+grouped select (LIMIT), nested compound} x label style of a member {default, LABEL_STYLE_NONE, TABLENAME_PLUS_COL;
+first / second member}, the members selecting columns with colliding names (a.id, b.id) so that the label style of a
+member is visible in the SQL.
 """
 import ast
 import copy
@@ -152,9 +171,43 @@ S1 = {"k": "select", "cols": [AID, AX]}
 S2 = {"k": "select", "cols": [AID, BX], "joins": [["b", None]], "where": [["op", "==", AS_, ["bp", "p", "v"]]], "order_by": [AID]}
 S3 = {"k": "select", "cols": [["ent", "A"]], "where": [["op", ">", ["attr", "A", "x"], 1]]}
 S4 = {"k": "select", "cols": [["fn", "count", [AID]], AX], "group_by": [AX], "limit": 10, "label_style": "tcol"}
+
+
+# ---- compound dimension: operator x shape of the first member x label style of a member (base-choice combination)
+def _member(ls=None, limit=None):
+    d = {"k": "select", "cols": [AID, BID], "joins": [["b", None]]}            # a.id, b.id: colliding names
+    if ls:
+        d["label_style"] = ls
+    if limit:
+        d["limit"] = limit
+    return d
+
+
+M2 = {"k": "select", "cols": [AX, ["c", "a", "parent_id"]], "where": [["op", "==", AS_, ["bp", "p", "v"]]]}
+COMPOUND_KINDS = ["union", "union_all", "intersect", "intersect_all", "except", "except_all"]
+COMPOUND_MEMBER_BASES = (
+    [{"k": k_, "selects": [_member("none"), M2]} for k_ in COMPOUND_KINDS]                                              # operator
+    + [{"k": "union", "selects": [_member("none", limit=3), M2]},                                                      # first member grouped
+       {"k": "union", "selects": [{"k": "union_all", "selects": [_member("none"), M2]}, M2]}]                          # first member a compound
+    + [{"k": "union", "selects": [_member(ls), M2]} for ls in (None, "tcol")]                                          # label style of the first member
+    + [{"k": "union", "selects": [M2, _member("none")]}, {"k": "union", "selects": [_member("none"), _member("none"), M2]}])   # second member / both
+
+# ---- derivation dimension: methods / constructors that build a new construct around the statement
+SELECTBASE_DERIVE = [
+    ["subquery", []], ["subquery", ["sq"]], ["alias", ["al"]], ["alias", ["al"], {"flat": True}], ["cte", ["c1"]], ["cte", ["c1"], {"recursive": True}], ["cte", ["c1"], {"nesting": True}],
+    ["lateral", ["l1"]], ["scalar_subquery", []], ["exists", []], ["label", ["lb"]], ["self_group", []],
+    ["@compound", "union", 0], ["@compound", "union", 1], ["@compound", "union_all", 0], ["@compound", "intersect", 0], ["@compound", "intersect_all", 0], ["@compound", "except_", 0],
+    ["@compound", "except_all", 1], ["@in", AID], ["@from_select", "b"],
+]
+SELECT_DERIVE = [["@method_compound", m_] for m_ in ("union", "union_all", "intersect", "intersect_all", "except_", "except_all")]
+DML_DERIVE = [["cte", ["d1"]], ["cte", ["d1"], {"nesting": True}]]
+TEXT_DERIVE = [["self_group", []]]
+DERIVE = {"SelectBase": SELECTBASE_DERIVE, "Select": SELECT_DERIVE, "UpdateBase": DML_DERIVE, "TextClause": TEXT_DERIVE}
+
 BASES = {
     "Select": ([S1, S2, S3, S4], SELECT_CALLS),
     "CompoundSelect": ([{"k": "union", "selects": [{"k": "select", "cols": [AID]}, {"k": "select", "cols": [BID], "where": [["op", "==", BX, ["bp", "p", 2]]]}]}], COMPOUND_CALLS),
+    "CompoundSelect[members]": (COMPOUND_MEMBER_BASES, COMPOUND_CALLS),
     "Insert": ([{"k": "insert", "t": "a"}, {"k": "insert", "t": "ent:A"}], INSERT_CALLS),
     "Insert[postgresql]": ([{"k": "insert", "t": "a", "fam": "pg", "values": {"id": 1}}], INSERT_CALLS[:6] + PG_CALLS),
     "Insert[sqlite]": ([{"k": "insert", "t": "a", "fam": "sqlite", "values": {"id": 1}}], INSERT_CALLS[:6] + PG_CALLS),
@@ -262,11 +315,12 @@ def fresh_key(s):
         return ("KEYEXC", type(e).__name__)
 
 
-def snapshot(s, with_key=True):
+def snapshot(s, with_key=True, only=None):
+    """only: indexes into DIALECTS (a partial snapshot, compared entry by entry with a full one by part_diff)"""
     out = []
     with warnings.catch_warnings():
         warnings.simplefilter("ignore")
-        for dn, d in _dialects():
+        for dn, d in (_dialects() if only is None else [_dialects()[i] for i in only]):
             try:
                 c = s.compile(dialect=d)
                 out.append((dn, str(c), tuple(sorted((k, repr(v)) for k, v in (c.params or {}).items()))))
@@ -295,6 +349,12 @@ def key_split(k):
 
 def snap_diff(a, b):
     return [x[0] for x, y in zip(a, b) if x != y]
+
+
+def part_diff(full, part):
+    """names of the entries of the partial snapshot that differ from the same-named entries of the full one"""
+    ref = {x[0]: x for x in full}
+    return [y[0] for y in part if ref[y[0]] != y]
 
 
 def what_changed(a, b):
@@ -442,6 +502,117 @@ def clone_then_call(cur, call, snap_of_cur, snap_of_result):
     return out
 
 
+
+# ------------------------------------------------------------------------------------------------ derivations
+def derive_ops(stmt):
+    """the derivations of the catalogue applicable to the type of `stmt`"""
+    from sqlalchemy import Select, TextClause
+    from sqlalchemy.sql.dml import UpdateBase
+    from sqlalchemy.sql.selectable import SelectBase
+    ops = []
+    if isinstance(stmt, SelectBase):
+        ops += SELECTBASE_DERIVE
+    if isinstance(stmt, Select):
+        ops += SELECT_DERIVE
+    if isinstance(stmt, UpdateBase):
+        ops += DML_DERIVE
+    if isinstance(stmt, TextClause):
+        ops += TEXT_DERIVE
+    return ops
+
+
+def op_name(op):
+    return op[0] if not op[0].startswith("@") else "%s:%s" % (op[0], op[1] if isinstance(op[1], str) else "")
+
+
+def _other_select(stmt):
+    """a SELECT with as many columns as `stmt`, to sit next to it in a compound"""
+    import sqlalchemy as sa
+    try:
+        n = len(list(stmt.selected_columns))
+    except Exception:  # noqa: BLE001
+        n = 1
+    return sa.select(*[sa.literal_column(str(i)).label("o%d" % i) for i in range(max(n, 1))])
+
+
+def apply_derive(stmt, op, w=None):
+    """op (JSON-able) -> the derived construct"""
+    import sqlalchemy as sa
+    if not op[0].startswith("@"):
+        return apply_call(stmt, op, w)
+    with warnings.catch_warnings():
+        warnings.simplefilter("ignore")
+        if op[0] == "@compound":
+            fn = getattr(sa, op[1])
+            return fn(stmt, _other_select(stmt)) if op[2] == 0 else fn(_other_select(stmt), stmt)
+        if op[0] == "@method_compound":
+            return getattr(stmt, op[1])(_other_select(stmt))
+        ctx = C.Ctx(w or C.world())
+        if op[0] == "@in":
+            col = C.E(ctx, op[1])
+            return sa.select(col).where(col.in_(stmt))
+        if op[0] == "@from_select":
+            t = ctx.table(op[1])
+            try:
+                n = len(list(stmt.selected_columns))
+            except Exception:  # noqa: BLE001
+                n = 1
+            return sa.insert(t).from_select([c_.name for c_ in list(t.c)[:n]], stmt)
+    raise KeyError(op[0])
+
+
+def use(obj, dialects):
+    """what a caller does with a derived construct: read its columns, compile it (a FROM element / column expression
+    inside a SELECT); returns [(dialect name, SQL)]; a construct that does not compile somewhere is not our subject"""
+    import sqlalchemy as sa
+    from sqlalchemy.sql.elements import ColumnElement
+    from sqlalchemy.sql.selectable import FromClause
+    out = []
+    with warnings.catch_warnings():
+        warnings.simplefilter("ignore")
+        try:
+            if isinstance(obj, FromClause):
+                list(obj.c)
+                target = sa.select(obj)
+            elif isinstance(obj, ColumnElement):
+                target = sa.select(obj)
+            else:
+                target = obj
+        except Exception:  # noqa: BLE001
+            return out
+        for dn, d in dialects:
+            try:
+                out.append((dn, str(target.compile(dialect=d))))
+            except Exception:  # noqa: BLE001
+                pass
+    return out
+
+
+def derive_chain(base_desc, calls, ops, w=None):
+    """replay / attribution helper: rebuild the chain, apply the derivations one at a time to its last statement and
+    re-snapshot the whole chain after each"""
+    fails = []
+    chain = [C.build(base_desc, w)]
+    for call in calls:
+        chain.append(apply_call(chain[-1], call, w))
+    snaps = [snapshot(st) for st in chain]
+    for op in ops:
+        try:
+            obj = apply_derive(chain[-1], op, w)
+        except Exception:  # noqa: BLE001
+            continue
+        use(obj, _dialects())
+        for k, st in enumerate(chain):
+            now = snapshot(st)
+            df = snap_diff(snaps[k], now)
+            if df:
+                fails.append(("derive[%s].%s" % (op_name(op), what_changed(snaps[k], now)), op,
+                              "statement %d of the chain (of %d) changed on %s by the derivation %s of the last one" % (k, len(chain), df, json.dumps(op)),
+                              dict(ancestor=k, differs=df, before=_j(snaps[k], df), after=_j(now, df))))
+                snaps[k] = now
+    return fails
+
+
 # ------------------------------------------------------------------------------------------------ worker
 def _tasks(tier):
     """(class label, base index, first call index): one DFS subtree each"""
@@ -466,10 +637,55 @@ def _worker(shard, nshards, tier, seed):
     tasks = _tasks(tier)
     if seed:
         random.Random(seed).shuffle(tasks)
-    out = dict(calls=0, rejected=0, snaps=0, failures=[], sql=set(), chains=0, returned_self={}, samples=[], copies=0, methods={})
+    out = dict(calls=0, rejected=0, snaps=0, failures=[], sql=set(), chains=0, returned_self={}, samples=[], copies=0, methods={}, derivations=0, derive_rejected=0, derive_ops={},
+               derive_steps=0)
 
     def fail(kind, label, base, path, detail, payload):
         out["failures"].append(dict(function="%s:%s.%s" % (kind, label, path[-1][0] if path else "base"), input=dict(base=base, calls=path), detail=detail, **(payload or {})))
+
+    def derive_step(label, base, path, chain, snaps, rotate=None):
+        """all (rotate=None) or a third (rotate=i) of the derivations applicable to chain[-1], each followed by use();
+        then the frame condition for the whole chain; the derivation at fault is named by derive_chain on a rebuilt chain"""
+        out["derive_steps"] += 1
+        ops = derive_ops(chain[-1])
+        if rotate is not None:
+            ops = ops[rotate % 3::3]
+        dl = _dialects()
+        for n_, op in enumerate(ops):
+            try:
+                obj = apply_derive(chain[-1], op)
+            except Exception:  # noqa: BLE001
+                out["derive_rejected"] += 1
+                continue
+            out["derivations"] += 1
+            out["derive_ops"][op_name(op)] = out["derive_ops"].get(op_name(op), 0) + 1
+            i = 1 + (out["derivations"] + n_) % (len(dl) - 1)
+            for dn, sql_ in use(obj, [dl[0], dl[i]]):
+                out["sql"].add(hashlib.md5((dn + sql_).encode()).digest()[:8])
+        changed = []
+        for k, st in enumerate(chain):
+            if rotate is not None:                     # after two calls: SQL on the default and one more dialect, and the key
+                if part_diff(snaps[k], snapshot(st, only=[0, 1 + (rotate + k) % (len(dl) - 1)])):
+                    changed.append(k)
+                else:
+                    out["snaps"] += 1
+                    continue
+            now = snapshot(st)
+            out["snaps"] += 1
+            df = snap_diff(snaps[k], now)
+            if df:
+                changed.append((k, df, snaps[k], now))
+                snaps[k] = now
+        changed = [c_ for c_ in changed if isinstance(c_, tuple)]
+        if changed:
+            named = derive_chain(base, path, ops)
+            for fn_, op, detail, payload in named:
+                out["failures"].append(dict(function="%s:%s.%s" % (fn_, label, path[-1][0] if path else "base"), input=dict(base=base, calls=path, derive=[op]), detail=detail, **payload))
+            if not named:                              # depends on the history of this process: report the whole step
+                k, df, before, now = changed[0]
+                out["failures"].append(dict(function="derive[*].%s:%s.%s" % (what_changed(before, now), label, path[-1][0] if path else "base"), input=dict(base=base, calls=path, derive=ops),
+                                            detail="statement %d of the chain changed on %s after the derivations %s" % (k, df, [op_name(o) for o in ops]),
+                                            ancestor=k, differs=df, before=_j(before, df), after=_j(now, df)))
 
     def visit(label, base, calls, chain, snaps, path, call, depth):
         """one generative call on chain[-1] with its contract clauses; recurses"""
@@ -513,6 +729,11 @@ def _worker(shard, nshards, tier, seed):
                 for how, what, detail, payload in clone_then_call(cur, call, snaps[-1], ns):
                     fail("copy[%s].%s" % (how, what), label, base, npath, detail, payload)
             ns = snapshot(nxt)                      # a copy's compilation may have touched shared state (reported above)
+            chain.append(nxt)
+            snaps.append(ns)
+            derive_step(label, base, npath, chain, snaps, rotate=None if len(npath) == 1 else out["copies"])
+            ns = snaps.pop()
+            chain.pop()
         if depth == 1:
             out["chains"] += 1
             again = snapshot(nxt)
@@ -542,6 +763,9 @@ def _worker(shard, nshards, tier, seed):
             for how, what, detail, payload in copies(stmt, s0):
                 fail("copy[%s].%s" % (how, what), label, base, [], detail, payload)
             s0 = snapshot(stmt)
+            sn = [s0]
+            derive_step(label, base, [], [stmt], sn)
+            s0 = sn[0]
         visit(label, base, calls, [stmt], [s0], [], calls[ci], _depth(tier, label, bi))
     out["sql"] = list(out["sql"])
     return out
@@ -551,8 +775,8 @@ def run(run, tier, seed, args):
     found = discover()
     res = C.shard_run(_worker, 64, (tier, seed))
     sql, failures, samples = set(), [], []
-    tot = dict(calls=0, rejected=0, snaps=0, chains=0, copies=0)
-    methods, rself = {}, {}
+    tot = dict(calls=0, rejected=0, snaps=0, chains=0, copies=0, derivations=0, derive_rejected=0, derive_steps=0)
+    methods, rself, dops = {}, {}, {}
     for r in res:
         sql.update(r["sql"])
         failures += r["failures"]
@@ -563,42 +787,62 @@ def run(run, tier, seed, args):
             methods[k] = methods.get(k, 0) + v
         for k, v in r["returned_self"].items():
             rself[k] = rself.get(k, 0) + v
-    C.report(run, failures)
+        for k, v in r["derive_ops"].items():
+            dops[k] = dops.get(k, 0) + v
+    C.report(run, failures, max_new=16)
     covered, uncovered = {}, {}
     for label, ms in found.items():
-        have = {k.split(".", 1)[1] for k in methods if k.startswith(label + ".") or k.startswith(label + "[names].")}
+        have = {k.split(".", 1)[1] for k in methods if k.startswith(label + ".") or k.startswith(label + "[names].") or k.startswith(label + "[members].")}
         covered[label] = sorted(m for m in ms if m in have)
         uncovered[label] = sorted(m for m in ms if m not in have)
     L = 2 if tier == "quick" else 3
     run.coverage.update(
-        evaluations=tot["snaps"],
+        evaluations=tot["snaps"] + tot["derivations"],
         distinct_nontrivial=len(sql),
         rule="all call chains of length <= L over the catalogue of canonical calls, depth-first from each base statement; after every accepted call every "
              "ancestor is re-snapshotted (SQL + params on 6 dialects + a freshly computed cache key) and compared with its snapshot taken when it was created; "
-             "every statement reached by <= 2 calls is also copied (shallow copies, pickle, the deep-clone kinds) and each copy's snapshot compared with the original's; "
-             "evaluations = snapshots taken; distinct_nontrivial = distinct (dialect, SQL text) of derived statements, counted by hash",
+             "every statement reached by <= 2 calls is also copied (shallow copies, pickle, the deep-clone kinds) and each copy's snapshot compared with the original's, "
+             "and put through the derivations (subquery / alias / cte / lateral / scalar_subquery / exists / label / self_group / member of a compound / IN operand / "
+             "INSERT..FROM SELECT source), each derived construct used (columns read, compiled on the default and one more dialect in rotation), after which the statement and all "
+             "its ancestors are re-snapshotted; evaluations = snapshots taken + derivations applied and used; distinct_nontrivial = distinct (dialect, SQL text) of the statements reached by the calls and of "
+             "the constructs derived from them, counted by hash",
         samples=samples[:3],
         exhaustive=True,
         scope="L = %d%s; bases: %s; catalogue sizes: %s; 6 dialects %s; copy.copy / _clone / pickle of every statement reached by <= 2 calls; deep clones %s of "
               "every base and every statement reached by 1 call, two kinds in rotation for the statements reached by 2 calls; clone-then-call == call for every first call "
-              "and every fourth second call; classes *[names] = the same over table n with the column / ad-hoc column / bind names %s"
+              "and every fourth second call; derivations %s of every base and every statement reached by 1 call, a third of them in rotation for the statements reached by 2 calls; "
+              "class CompoundSelect[members] = compound bases over operator x first-member shape (select / grouped / nested compound) x member label style (default / none / tcol, "
+              "first / second member) with colliding column names, base-choice; "
+              "classes *[names] = the same over table n with the column / ad-hoc column / bind names %s"
               % (L, "" if tier == "quick" else " (Select bases 1 and 3, *[names]: L = 2)", {k: len(v[0]) for k, v in BASES.items()}, {k: len(v[1]) for k, v in BASES.items()}, list(DIALECTS),
-                 CLONES, NAMES + ["_adhoc", "adhoc_(", "_p", "p_", "x(y)", "_ids", "_v", "_lbl_", "_cw", "_n1"]),
+                 CLONES, {k: [op_name(o) + (str(o[2]) if o[0] == "@compound" else "") for o in v] for k, v in DERIVE.items()}, NAMES + ["_adhoc", "adhoc_(", "_p", "p_", "x(y)", "_ids", "_v", "_lbl_", "_cw", "_n1"]),
         generative_calls=tot["calls"], calls_rejected_by_constructors=tot["rejected"], chains_completed=tot["chains"], copies_checked=tot["copies"],
+        derivations_applied=tot["derivations"], derivations_rejected_by_constructors=tot["derive_rejected"], statements_put_through_derivations=tot["derive_steps"], derivations_by_kind=dops,
         methods_found_mechanically=found, methods_exercised=covered, methods_not_exercised=uncovered,
         delegating_public_methods_also_exercised=sorted(DELEGATING), returned_self=rself)
     run.assumptions += [
         "observation = compiled SQL text and parameters on six unconnected dialects and the cache key; execution is outside",
         "one or a few canonical argument lists per method (the catalogue in this file); methods listed under methods_not_exercised are private hooks "
-        "(_set_compile_options, _update_compile_options, _add_compile_state_func) or reached only through their public wrappers (ext via on_conflict_*)",
+        "(_set_compile_options, _update_compile_options, _add_compile_state_func) or reached only through their public wrappers (ext via on_conflict_*; "
+        "_ensure_disambiguated_names via the derivations subquery / alias / cte / lateral)",
         "bounded exploration, not a proof",
     ]
 
 
 def replay(data):
     inp = data["input"]
+    kind = data.get("function", "").rsplit(":", 1)[0]           # '<clause>.<what changed>' ; the clause may contain ':' itself
+    if kind.startswith("derive"):
+        fs = derive_chain(inp["base"], inp["calls"], inp["derive"])
+        same = [f for f in fs if f[0] == kind or kind.startswith("derive[*]")]
+        if same:
+            print("REPLAY-FAILS C03 %s base=%s calls=%s: %s" % (same[0][0], json.dumps(inp["base"])[:300], json.dumps(inp["calls"])[:300], same[0][2]))
+            print("  " + json.dumps(same[0][3])[:900])
+            return 1
+        print("REPLAY-PASSES C03 clause %r holds: the derivations %s leave the chain of %d statement(s) as it was%s"
+              % (kind, json.dumps(inp["derive"])[:200], len(inp["calls"]) + 1, "; other classes firing: %s" % sorted({f[0] for f in fs}) if fs else ""))
+        return 0
     fails, chain, snaps = run_chain(inp["base"], inp["calls"])
-    kind = data.get("function", "").split(":")[0]
     if kind.startswith("copy") and not (fails and fails[-1][0] == "rejected"):
         cf = copies(chain[-1], snaps[-1])
         if len(chain) > 1:
